@@ -618,6 +618,7 @@ pub fn registry(prop: &str) -> Option<Check> {
         "C04" => crate::props::c04::check(),
         "C07" => crate::props::c07::check(),
         "C08" => crate::props::c08::check(),
+        "C10" => crate::props::c10::check(),
         "C12" => crate::props::c12::check(),
         "C19" => crate::props::c19::check(),
         "C20" => crate::props::c20::check(),
